@@ -244,7 +244,12 @@ def check_io(ck, hb, quick, replay):
             for l in open(cp):
                 l = l.strip()
                 if l.startswith("io "):
-                    j = json.loads(l[3:]); seqs.append((j["fs"], [tuple(o) for o in j["ops"]]))
+                    j = json.loads(l[3:])
+                    def ent(v):
+                        if v == "absent": return 1
+                        t = v.split(":")
+                        return 2 + (W.written[(int(t[1]), int(t[2]))] if t[0] == "w" else W.special[t[1]])
+                    seqs.append((mkfs({int(n): ent(v) for n, v in j["files"].items()}), [tuple(o) for o in j["ops"]]))
         nseq = 260 if quick else 2000
         seqs += [gen_io_seq(rng, W, 8 if quick else 20) for _ in range(nseq)]
     res = run_io_sequences(ck, hb, W, seqs, "ioseq")
